@@ -9,10 +9,14 @@ import (
 	"bytes"
 	"context"
 	"encoding/base64"
+	"errors"
 	"fmt"
 	"os"
 	"path/filepath"
+	"regexp"
+	"runtime"
 	"sort"
+	"strconv"
 	"strings"
 	"testing"
 	"time"
@@ -26,11 +30,24 @@ type vc19TxStream struct {
 	grpc.ServerStream
 	ctx  context.Context
 	sent []*old_faithful_grpc.TransactionResponse
+	// an ABORTED stream (both 0 = a healthy one): the failAt-th Send and every later one return an error (the
+	// client went away); after the cancelAfter-th Send has returned nil the stream context is cancelled
+	failAt      int
+	cancelAfter int
+	cancel      context.CancelFunc
 }
+
+var errVc19ClientGone = errors.New("verif: the client of this stream went away")
 
 func (f *vc19TxStream) Context() context.Context { return f.ctx }
 func (f *vc19TxStream) Send(r *old_faithful_grpc.TransactionResponse) error {
 	f.sent = append(f.sent, r)
+	if f.failAt > 0 && len(f.sent) >= f.failAt {
+		return errVc19ClientGone
+	}
+	if f.cancelAfter > 0 && len(f.sent) == f.cancelAfter && f.cancel != nil {
+		f.cancel()
+	}
 	return nil
 }
 
@@ -116,7 +133,7 @@ func vc19Keep(f vc19Filter, tx *vfxTx) bool {
 
 func TestVerif_C19(t *testing.T) {
 	rep := vh.NewReport("C19", "stream",
-		"StreamTransactions / StreamBlocks over ranges inside and across two adjacent generated epochs (skipped slots, blocks recording block time 0, vote/non-vote, failed/ok, loaded accounts) and across a second pair of adjacent epochs with identical CAR layout (same byte offsets, same accounts) x filter combinations (vote, failed in {absent,true,false}; include/exclude/required over a 6-account universe incl. an account that only appears as a loaded address) x address index loaded or not; a case = one stream; non-trivial = at least one archived transaction in the range")
+		"StreamTransactions / StreamBlocks over ranges inside and across two adjacent generated epochs (skipped slots, blocks recording block time 0, vote/non-vote, failed/ok, loaded accounts) and across a second pair of adjacent epochs with identical CAR layout (same byte offsets, same accounts) x filter combinations (vote, failed in {absent,true,false}; include/exclude/required over a 6-account universe incl. an account that only appears as a loaded address) x address index loaded or not; an epoch with two hot accounts (a few thousand transactions each, several per slot: chains of several records in the address index) streamed over windows that start / end at and around every record boundary of either chain and at sampled slots holding several of its transactions; request histories on one server: a stream aborted at every point (k-th Send fails / context cancelled after the k-th Send) followed by healthy streams with the same and other filters over the same, overlapping and disjoint windows, under the default GOMAXPROCS and 1; a case = one stream; non-trivial = at least one archived transaction in the range")
 	cases := vh.NewCases("cases_c19", []string{"YF.C19_Stream"}, "case", "check")
 	seed := vh.Seed()
 	e1 := vfxDefaultSpec("c19e1", 1, seed)
@@ -147,6 +164,12 @@ func TestVerif_C19(t *testing.T) {
 	tw2 := tw1
 	tw2.Name, tw2.Dir, tw2.Epoch, tw2.FirstRel = "c19tw2", filepath.Join(vh.OutDir(), "fx-c19tw2"), 9, 0
 	specs = append(specs, tw1, tw2)
+	// an epoch with two HOT accounts: each is mentioned by a few thousand transactions of the epoch, several per
+	// slot, so that its chain in the address index consists of several records and record boundaries fall inside
+	// slots (measured below, not assumed)
+	hot := vfxDefaultSpec("c19hot", 11, seed+6)
+	hot.NumSlots, hot.FirstRel, hot.SkipPercent, hot.Gsfa, hot.Accounts, hot.MaxEntries, hot.MaxTx = 420, 1000, 10, true, 2, 4, 9
+	specs = append(specs, hot)
 	built, berr := vfxBuild(specs)
 	// a fixture epoch that cannot be built (or, below, loaded) on the tree under test is left out with a note;
 	// the remaining epochs are still streamed
@@ -184,7 +207,21 @@ func TestVerif_C19(t *testing.T) {
 	}
 	loadedOnly := vfxAccount(1, 0).String()
 	universe = append(universe, loadedOnly, vfxAccount(1, 1).String(), vfxAccount(5, 5).String() /* never used */)
-	trD, trN := byName["c19dense"], byName["c19noidx"]
+	trD, trN, trH := byName["c19dense"], byName["c19noidx"], byName["c19hot"]
+	perRecord := vc19ItemsPerRecord(rep)
+	hotAccs := []string{universe[0], universe[1]}
+	hotInfo := map[string]*vc19Hot{}
+	if trH != nil {
+		for _, a := range hotAccs {
+			hotInfo[a] = vc19HotHistory(trH, a, perRecord)
+		}
+		rep.Flag("hot_epoch_transactions_per_hot_account", []int{len(hotInfo[hotAccs[0]].hist), len(hotInfo[hotAccs[1]].hist)})
+		rep.Flag("hot_epoch_index_record_boundaries", hotInfo[hotAccs[0]].boundaries+hotInfo[hotAccs[1]].boundaries)
+		rep.Flag("hot_epoch_index_record_boundaries_inside_a_slot", hotInfo[hotAccs[0]].inside+hotInfo[hotAccs[1]].inside)
+		if hotInfo[hotAccs[0]].inside+hotInfo[hotAccs[1]].inside == 0 {
+			rep.Note("no record boundary of a hot account falls inside a slot under this seed (%d transactions per index record)", perRecord)
+		}
+	}
 	base2 := e2.Epoch * vfxEpochLen
 	baseT := tw2.Epoch * vfxEpochLen
 	type rng struct{ lo, hi uint64 }
@@ -349,7 +386,11 @@ func TestVerif_C19(t *testing.T) {
 			})
 			return out
 		}
-		runTx := func(lo, hi uint64, f vc19Filter, addCase bool) {
+		var runTxSig func(lo, hi uint64, f vc19Filter, addCase bool, sigDiff, label string)
+		runTx := func(lo, hi uint64, f vc19Filter, addCase bool) { runTxSig(lo, hi, f, addCase, "", "") }
+		// sigDiff: the failure signature of a difference ("" = the general ones); label: what came before this
+		// stream on the same server ("" = nothing that matters), part of the case key and of the replay
+		runTxSig = func(lo, hi uint64, f vc19Filter, addCase bool, sigDiff, label string) {
 			arch := archived(lo, hi)
 			byBytes := map[string]int{}
 			for i, tx := range arch {
@@ -361,6 +402,10 @@ func TestVerif_C19(t *testing.T) {
 			}
 			st := &vc19TxStream{ctx: context.Background()}
 			replay := map[string]interface{}{"specs": specs, "start": lo, "end": hi, "filter": f.String(), "filter_detail": f, "index_loaded": withIndex}
+			if label != "" {
+				replay["earlier_on_this_server"] = label
+				replay["gomaxprocs"] = runtime.GOMAXPROCS(0)
+			}
 			var serr error
 			panicked := false
 			func() {
@@ -375,7 +420,7 @@ func TestVerif_C19(t *testing.T) {
 			if panicked {
 				return
 			}
-			key := fmt.Sprintf("%s/tx/%d-%d/%s/%v%v%v", tag, lo, hi, f, f.Include, f.Exclude, f.Required)
+			key := fmt.Sprintf("%s/tx/%d-%d/%s/%v%v%v%s", tag, lo, hi, f, f.Include, f.Exclude, f.Required, label)
 			rep.Case(key, len(arch) > 0)
 			rep.Count("StreamTransactions " + tag)
 			if serr != nil && strings.Contains(serr.Error(), "no position index") {
@@ -420,8 +465,15 @@ func TestVerif_C19(t *testing.T) {
 				if len(extra) == 0 && len(missing) > 0 && len(want) > 100 && withIndex && !f.Nil && len(f.Include) > 0 {
 					sig = "stream-misses-transactions-beyond-100-per-account"
 				}
-				rep.Fail(sig, fmt.Sprintf("%s StreamTransactions[%d,%d] filter{%s} inc=%v exc=%v req=%v: streamed %d, expected %d (missing %v, unexpected %v) of %d archived",
-					tag, lo, hi, f, coqAccs(f.Include), coqAccs(f.Exclude), coqAccs(f.Required), len(got), len(want), vc19Head(missing), vc19Head(extra), len(arch)), replay)
+				if sigDiff != "" {
+					sig = sigDiff
+				}
+				after := ""
+				if label != "" {
+					after = " after {" + label + "}"
+				}
+				rep.Fail(sig, fmt.Sprintf("%s StreamTransactions[%d,%d] filter{%s} inc=%v exc=%v req=%v%s: streamed %d, expected %d (missing %v, unexpected %v) of %d archived",
+					tag, lo, hi, f, coqAccs(f.Include), coqAccs(f.Exclude), coqAccs(f.Required), after, len(got), len(want), vc19Head(missing), vc19Head(extra), len(arch)), replay)
 			}
 			if addCase && len(arch) <= 60 {
 				var txs []string
@@ -550,6 +602,209 @@ func TestVerif_C19(t *testing.T) {
 				}
 			}
 		}
+		// ---- the hot epoch: windows that start / end at and around every record boundary of a hot account's
+		// chain in the address index (positions per*k +-2 of its history, counted from the oldest and from the
+		// newest transaction) and at sampled slots that hold several of its transactions; the account alone,
+		// with flags / an exclude list, and together with the other hot account and a loaded-only account
+		if trH != nil && loaded["c19hot"] {
+			const hotSig = "hot-account-stream-differs-from-filtered-archive"
+			first, last := trH.Blocks[0].Slot, trH.Blocks[len(trH.Blocks)-1].Slot
+			hrnd := vh.NewRng(seed + 7)
+			run := func(lo, hi uint64, f vc19Filter) {
+				if lo < first-1 {
+					lo = first - 1
+				}
+				if hi > last+1 {
+					hi = last + 1
+				}
+				rep.Count("StreamTransactions on the hot epoch " + tag)
+				runTxSig(lo, hi, f, hi-lo <= 1 && hrnd.Intn(8) == 0, hotSig, "")
+			}
+			for ai, a := range hotAccs {
+				h := hotInfo[a]
+				other := hotAccs[1-ai]
+				alone := vc19Filter{Include: []string{a}}
+				for _, s := range h.boundarySlots {
+					run(s, s, alone)
+					run(s, s+2, alone)
+					run(s-2, s, alone)
+					if withIndex || hrnd.Intn(4) == 0 || vh.Thorough() { // long scans without the index: a sample
+						run(s, last, alone)
+						run(first, s, alone)
+					}
+					run(s, s, vc19Filter{Include: []string{a}, Failed: &F})
+					run(s, s+1, vc19Filter{Include: []string{a}, Exclude: []string{other}})
+					run(s, s+1, vc19Filter{Include: []string{a, other}})
+					run(s-1, s, vc19Filter{Include: []string{other, a}, Vote: &F})
+					run(s, s+3, vc19Filter{Include: []string{a, loadedOnly}})
+					run(s, s, vc19Filter{Include: []string{loadedOnly, a}, Required: []string{other}})
+				}
+				ms := append([]uint64(nil), h.multiSlots...)
+				if !vh.Thorough() && len(ms) > 16 {
+					for i := len(ms) - 1; i > 0; i-- {
+						j := hrnd.Intn(i + 1)
+						ms[i], ms[j] = ms[j], ms[i]
+					}
+					ms = ms[:16]
+				}
+				for _, s := range ms {
+					run(s, s, alone)
+					run(s, s+4, vc19Filter{Include: []string{a, other}})
+				}
+			}
+		}
+		// ---- request HISTORIES on this server: a stream that is aborted at every possible point (the k-th Send
+		// fails, or the stream context is cancelled after the k-th Send, k = 1 .. number of answers + 1) followed
+		// by healthy streams (same and other filters; the same, an overlapping, a disjoint window; with and
+		// without an include list). What was passed to Send by the aborted stream must be archived transactions
+		// of the range that satisfy its filter, in ascending order; every later stream must be exactly the
+		// filtered archive, as if nothing had happened before. Once with the default GOMAXPROCS and once with 1
+		// (objects kept per P).
+		{
+			runAborted := func(lo, hi uint64, f vc19Filter, failAt, cancelAfter int, label string) {
+				arch := archived(lo, hi)
+				byBytes := map[string]int{}
+				for i, tx := range arch {
+					byBytes[tx.TxB64] = i + 1
+				}
+				wantSet := map[int]bool{}
+				var want []int
+				for i, tx := range arch {
+					if vc19Keep(f, tx) {
+						want = append(want, i+1)
+						wantSet[i+1] = true
+					}
+				}
+				req := &old_faithful_grpc.StreamTransactionsRequest{StartSlot: lo, EndSlot: &hi}
+				if !f.Nil {
+					req.Filter = &old_faithful_grpc.StreamTransactionsFilter{Vote: f.Vote, Failed: f.Failed, AccountInclude: f.Include, AccountExclude: f.Exclude, AccountRequired: f.Required}
+				}
+				ctx, cancel := context.WithCancel(context.Background())
+				defer cancel()
+				st := &vc19TxStream{ctx: ctx, failAt: failAt, cancelAfter: cancelAfter, cancel: cancel}
+				replay := map[string]interface{}{"specs": specs, "start": lo, "end": hi, "filter": f.String(), "filter_detail": f, "index_loaded": withIndex,
+					"aborted": label, "gomaxprocs": runtime.GOMAXPROCS(0)}
+				var serr error
+				panicked := false
+				func() {
+					defer func() {
+						if r := recover(); r != nil {
+							panicked = true
+							rep.Fail("stream-panic", fmt.Sprintf("%s StreamTransactions[%d,%d] filter{%s} %s: %v", tag, lo, hi, f, label, r), replay)
+						}
+					}()
+					serr = multi.StreamTransactions(req, st)
+				}()
+				if panicked {
+					return
+				}
+				rep.Case(fmt.Sprintf("%s/tx-aborted/%d-%d/%s/%v%v%v/%s", tag, lo, hi, f, f.Include, f.Exclude, f.Required, label), len(arch) > 0)
+				rep.Count("StreamTransactions aborted " + tag)
+				triggered := (failAt > 0 && len(st.sent) >= failAt) || (cancelAfter > 0 && len(st.sent) >= cancelAfter)
+				var got []int
+				bad := 0
+				prev := 0
+				for _, m := range st.sent {
+					if m.Transaction == nil || len(m.Transaction.Transaction) == 0 {
+						continue
+					}
+					n, ok := byBytes[base64.StdEncoding.EncodeToString(m.Transaction.Transaction)]
+					if !ok || !wantSet[n] || n <= prev {
+						bad++
+						continue
+					}
+					prev = n
+					got = append(got, n)
+				}
+				if bad > 0 {
+					rep.Fail("aborted-stream-sent-unexpected-transaction", fmt.Sprintf("%s StreamTransactions[%d,%d] filter{%s} %s: %d of the %d messages passed to Send are not archived transactions of the range satisfying the filter in ascending order",
+						tag, lo, hi, f, label, bad, len(st.sent)), replay)
+				}
+				if !triggered {
+					// the abort point lies behind the last message: a complete stream
+					if serr != nil && !strings.Contains(serr.Error(), "no position index") {
+						rep.Fail("stream-error", fmt.Sprintf("%s StreamTransactions[%d,%d] filter{%s}: %v", tag, lo, hi, f, serr), replay)
+					} else if serr == nil && fmt.Sprint(got) != fmt.Sprint(want) {
+						missing, extra := vc19Diff(want, got)
+						rep.Fail("stream-differs-from-filtered-archive", fmt.Sprintf("%s StreamTransactions[%d,%d] filter{%s}: streamed %d, expected %d (missing %v, unexpected %v)", tag, lo, hi, f, len(got), len(want), vc19Head(missing), vc19Head(extra)), replay)
+					}
+					return
+				}
+				rep.Count("aborted streams that had passed some but not all answers to Send " + tag + fmt.Sprintf(": %v", len(got) > 0 && len(got) < len(want)))
+				if len(got) > len(want) || fmt.Sprint(got) != fmt.Sprint(want[:len(got)]) {
+					// not demanded by the property text (an aborted stream promises nothing about completeness): recorded only
+					rep.Count("aborted streams whose messages are not a prefix of the answer " + tag)
+				}
+			}
+			type win struct{ lo, hi uint64 }
+			var wins []win
+			if loaded["c19e1"] && loaded["c19e2"] {
+				wins = append(wins, win{base2 - 6, base2 + 6})
+			}
+			if loaded["c19tw1"] && loaded["c19tw2"] {
+				wins = append(wins, win{baseT - 5, baseT + 4})
+			}
+			if trD != nil && loaded["c19dense"] {
+				wins = append(wins, win{trD.base() + 3, trD.base() + 5})
+			}
+			if trH != nil && loaded["c19hot"] {
+				if bs := hotInfo[hotAccs[0]].boundarySlots; len(bs) > 0 {
+					wins = append(wins, win{bs[len(bs)/2], bs[len(bs)/2] + 1})
+				}
+			}
+			firsts := []vc19Filter{{Include: []string{universe[0]}}, {Include: []string{universe[1], universe[0]}, Failed: &F}, {Vote: &F}, {Nil: true}}
+			hrnd := vh.NewRng(seed + 8)
+			for _, procs := range []int{0, 1} {
+				func() {
+					if procs > 0 {
+						old := runtime.GOMAXPROCS(procs)
+						defer runtime.GOMAXPROCS(old)
+					}
+					for _, w := range wins {
+						for _, f1 := range firsts {
+							n := 0
+							for _, tx := range archived(w.lo, w.hi) {
+								if vc19Keep(f1, tx) {
+									n++
+								}
+							}
+							maxK := n + 1
+							ks := make([]int, 0, maxK)
+							for k := 1; k <= maxK; k++ {
+								ks = append(ks, k)
+							}
+							if !vh.Thorough() && len(ks) > 10 { // every abort point when there are few, else the first 4, the last 3 and 3 between
+								pick := append([]int{}, ks[:4]...)
+								for i := 0; i < 3; i++ {
+									pick = append(pick, ks[4+hrnd.Intn(len(ks)-7)])
+								}
+								ks = append(pick, ks[len(ks)-3:]...)
+							}
+							for _, k := range ks {
+								for mode := 0; mode < 2; mode++ {
+									label := fmt.Sprintf("[%d,%d] filter{%s} inc=%v aborted: Send #%d fails", w.lo, w.hi, f1, coqAccs(f1.Include), k)
+									failAt, cancelAfter := k, 0
+									if mode == 1 {
+										label = fmt.Sprintf("[%d,%d] filter{%s} inc=%v aborted: stream context cancelled after Send #%d", w.lo, w.hi, f1, coqAccs(f1.Include), k)
+										failAt, cancelAfter = 0, k
+									}
+									runAborted(w.lo, w.hi, f1, failAt, cancelAfter, label)
+									const sig = "stream-after-aborted-stream-differs-from-filtered-archive"
+									c := func() bool { return hrnd.Intn(24) == 0 }
+									rep.CountN("StreamTransactions after an aborted stream "+tag, 6)
+									runTxSig(w.lo, w.hi, vc19Filter{Include: []string{universe[1]}}, c(), sig, label)
+									runTxSig(w.lo, w.hi, vc19Filter{Include: []string{universe[2], loadedOnly}, Exclude: []string{universe[0]}}, c(), sig, label)
+									runTxSig(w.lo, w.hi, f1, c(), sig, label)
+									runTxSig(w.lo+2, w.hi+3, vc19Filter{Include: []string{loadedOnly, universe[1]}, Vote: &F}, c(), sig, label)
+									runTxSig(w.hi+1, w.hi+8, vc19Filter{Include: []string{universe[0]}}, c(), sig, label)
+									runTxSig(w.lo, w.hi, vc19Filter{Nil: true}, c(), sig, label)
+								}
+							}
+						}
+					}
+				}()
+			}
+		}
 		for _, e := range eps {
 			e.Close()
 		}
@@ -597,4 +852,77 @@ func vc19Head(x []int) []int {
 		return x[:8]
 	}
 	return x
+}
+
+// ---------------------------------------------------------------- hot accounts
+
+// vc19ItemsPerRecord reads the number of transactions the address-index writer puts into one record of an
+// account's chain from the source of the tree under test (it is an unexported constant of another package);
+// when it cannot be read the value of the pinned tree is used, with a note.
+func vc19ItemsPerRecord(rep *vh.Report) int {
+	const pinned = 1000
+	src, err := os.ReadFile(filepath.Join(vfxRepoRoot(), "gsfa", "gsfa-write.go"))
+	if err == nil {
+		if m := regexp.MustCompile(`(?m)^\s*(?:const\s+)?itemsPerBatch\s*=\s*([0-9_]+)\s*$`).FindSubmatch(src); m != nil {
+			if v, err := strconv.Atoi(strings.ReplaceAll(string(m[1]), "_", "")); err == nil && v > 0 {
+				rep.Flag("address_index_transactions_per_record", v)
+				return v
+			}
+		}
+	}
+	rep.Note("itemsPerBatch not found in gsfa/gsfa-write.go: record boundaries computed for %d transactions per record", pinned)
+	return pinned
+}
+
+type vc19Hot struct {
+	hist          []uint64 // slot of every transaction of the epoch that mentions the account, ascending
+	boundaries    int      // record boundaries of its chain (counted from the oldest transaction)
+	inside        int      // ... of which between two transactions of the same slot
+	boundarySlots []uint64 // slots within +-1 of the transactions at positions per*k-2 .. per*k+1, counted from either end
+	multiSlots    []uint64 // slots that hold at least two transactions of the account
+}
+
+func vc19HotHistory(tr *vfxTruth, acc string, per int) *vc19Hot {
+	h := &vc19Hot{}
+	perSlot := map[uint64]int{}
+	for bi := range tr.Blocks {
+		b := &tr.Blocks[bi]
+		for ti := range b.Txs {
+			if vc19Mentions(&b.Txs[ti], acc) {
+				h.hist = append(h.hist, b.Slot)
+				perSlot[b.Slot]++
+			}
+		}
+	}
+	sort.Slice(h.hist, func(i, j int) bool { return h.hist[i] < h.hist[j] })
+	set := map[uint64]bool{}
+	add := func(p int) {
+		if p < 0 || p >= len(h.hist) {
+			return
+		}
+		for d := uint64(0); d < 3; d++ {
+			set[h.hist[p]+d-1] = true
+		}
+	}
+	for k := 1; k*per < len(h.hist); k++ {
+		h.boundaries++
+		if h.hist[k*per-1] == h.hist[k*per] {
+			h.inside++
+		}
+		for d := -2; d <= 1; d++ {
+			add(k*per + d)
+			add(len(h.hist) - k*per + d)
+		}
+	}
+	for s := range set {
+		h.boundarySlots = append(h.boundarySlots, s)
+	}
+	sort.Slice(h.boundarySlots, func(i, j int) bool { return h.boundarySlots[i] < h.boundarySlots[j] })
+	for s, n := range perSlot {
+		if n >= 2 {
+			h.multiSlots = append(h.multiSlots, s)
+		}
+	}
+	sort.Slice(h.multiSlots, func(i, j int) bool { return h.multiSlots[i] < h.multiSlots[j] })
+	return h
 }
